@@ -1,8 +1,8 @@
 #!/bin/bash
 # copy the artefacts a seeding agent left in /tmp/seedwt-<ID> into /verif/seeded/<ID>-k/
 id=$1
-for k in 1 2; do
-  src=/tmp/seedwt-$id
+for k in 1 2 3 4 5; do
+  src=/tmp/seedwt-$id; [ -d /tmp/seedwt2-$id ] && [ $k -ge 3 ] && src=/tmp/seedwt2-$id
   if [ -f $src/seed${id}_$k.diff ]; then
     d=/verif/seeded/$id-$k; mkdir -p $d
     cp $src/seed${id}_$k.diff $d/patch.diff; cp $src/demo${id}_$k.py $d/demo.py; cp $src/meta${id}_$k.json $d/meta.json
